@@ -37,6 +37,52 @@ func (c Ctor) coq() string {
 	return "KRO"
 }
 
+// ccoq: the constructor in the cache-aware model (Model/ViewsCache.v)
+func (c Ctor) ccoq() string {
+	if c.Kind == "cache" {
+		return "CKCache"
+	}
+	return "CK (" + c.coq() + ")"
+}
+
+// cacheOnCache: a cache directly on another cache (only pass-through masks between them) is outside the
+// path model; such stacks get the L2 oracles only.
+func cacheOnCache(ks []Ctor) bool {
+	pending := false
+	for _, k := range ks {
+		switch k.Kind {
+		case "cache":
+			if pending {
+				return true
+			}
+			pending = true
+		case "ro", "enc":
+		default:
+			pending = false
+		}
+	}
+	return false
+}
+
+// changedFiles: the files of after that are new or differ from before
+func changedFiles(before, after []WalkEnt) (res [][]string) {
+	old := map[string]string{}
+	for _, e := range before {
+		if !e.IsDir {
+			old[strings.Join(e.Path, "/")] = string(e.Data)
+		}
+	}
+	for _, e := range after {
+		if e.IsDir {
+			continue
+		}
+		if d, ok := old[strings.Join(e.Path, "/")]; !ok || d != string(e.Data) {
+			res = append(res, e.Path)
+		}
+	}
+	return
+}
+
 func encSettings() encryptfs.Settings {
 	return encryptfs.Settings{Salt: []byte("salt"), Secret: []byte("secret"), Cipher: extcfs.NewDefaultCipher()}
 }
@@ -222,11 +268,11 @@ func outSig(o FsOut) string {
 }
 
 func runC03(o *Out, rng *RNG, tier string, replay string) {
-	o.Imports = "From GC Require Import Common.Base Model.Paths Model.Fs Model.Views Corr.FsCorr Corr.C03."
+	o.Imports = "From GC Require Import Common.Base Model.Paths Model.Fs Model.Views Model.ViewsCache Corr.FsCorr Corr.C03."
 	o.CaseType = "case"
 	o.CheckFn = "check"
 	o.ShardSize = 150
-	o.Rule = "view stacks of depth 1-3 over a populated backend (kinds: memfs child view, fshelper.SubFS, read-only mask, encrypted, cache-backed, disk child) x path arguments built from {name,'.','..',''} segments (exhaustive up to the tier's segment bound, with and without leading '/') x the 16 operations (both arguments of the copies). L2: backend tree outside the view root unchanged (only ancestors of the root may appear as directories), answers independent of what lies outside the root (two parents agreeing below the root), nothing created on the host above a disk root. L1 (memfs-rooted stacks without cache): result + root tree vs the Coq chain model. Non-trivial: the operation was not rejected; distinct by (stack, op, arguments)."
+	o.Rule = "view stacks of depth 1-3 over a populated backend (kinds: memfs child view, fshelper.SubFS, read-only mask, encrypted, cache-backed, disk child) x path arguments built from {name,'.','..',''} segments (exhaustive up to the tier's segment bound, with and without leading '/') x the 16 operations (both arguments of the copies). L2: backend tree outside the view root unchanged (only ancestors of the root may appear as directories), answers independent of what lies outside the root (two parents agreeing below the root), nothing created on the host above a disk root. L1 (memfs-rooted stacks without cache): result + root tree vs the Coq chain model; L1 resolve probe (all memfs-rooted stacks, caches included): the one backend file a successful WriteFile changes is where the model's path transformer resolves the argument to. Non-trivial: the operation was not rejected; distinct by (stack, op, arguments)."
 	maxSeg := 3
 	if tier == "thorough" {
 		maxSeg = 4
@@ -305,6 +351,26 @@ func runC03(o *Out, rng *RNG, tier string, replay string) {
 			}
 		}
 		nontrivial := out.Kind != "err" && !(out.Kind == "bool" && !out.B)
+		// resolve probe (all stacks, caches included): a successful WriteFile lands exactly where the
+		// model's path transformer says the argument resolves to
+		if emitL1 && wok && ok && op.Kind == "WriteFile" && out.Kind == "unit" && !cacheOnCache(ks) {
+			ch := changedFiles(before, after)
+			if len(ch) == 1 {
+				items := make([]string, len(ks))
+				for i, k := range ks {
+					items[i] = k.ccoq()
+				}
+				o.AddCase(fmt.Sprintf("CRes %s %s %s", coqList(items), coqStr(op.P), coqStrList(ch[0])), desc, "res|"+keyStr, true)
+				o.Stat("resolve_probe")
+				if hasCache {
+					o.Stat("resolve_probe_cache_stack")
+				}
+			} else if len(ch) > 1 {
+				o.Fail("confined_writes", fmt.Sprintf("one WriteFile changed %d files of the backend: %v", len(ch), ch), "multiwrite", desc)
+			} else {
+				o.Stat("resolve_probe_same_content")
+			}
+		}
 		if emitL1 && !hasCache && wok {
 			contentOp := op.Kind == "ReadFile" || op.Kind == "WriteFile" || op.Kind == "Reader" || op.Kind == "Writer" || op.Kind == "Lstat"
 			if !(hasEnc && contentOp) {
